@@ -232,34 +232,40 @@ Section StateMachine.
   Lemma built_aberration : built (q_aberration Ph).
   Proof. unfold q_aberration; bt; auto with c13. Qed.
   Local Hint Resolve built_aberration : c13.
-  Lemma built_wavefront nf nw : built (q_wavefront Ph nf nw).
+  Lemma built_tilt_EPD : built (tilt_EPD Ph).
+  Proof. unfold tilt_EPD; bt; auto with c13. Qed.
+  Local Hint Resolve built_tilt_EPD : c13.
+  Lemma built_wavefront nf nw sc sp : built (q_wavefront Ph nf nw sc sp).
   Proof. unfold q_wavefront; bt; auto with c13. Qed.
   Local Hint Resolve built_wavefront : c13.
-  Lemma built_spot nf nw : built (q_spot Ph nf nw).
+  Lemma built_spot nf nw s : built (q_spot Ph nf nw s).
   Proof. unfold q_spot; bt; auto with c13. Qed.
   Local Hint Resolve built_spot : c13.
-  Lemma built_rayfan nf nw : built (q_rayfan Ph nf nw).
+  Lemma built_rayfan nf nw sx sy : built (q_rayfan Ph nf nw sx sy).
   Proof. unfold q_rayfan; bt; auto with c13. Qed.
   Local Hint Resolve built_rayfan : c13.
-  Lemma built_pupil_aberration nf nw : built (q_pupil_aberration Ph nf nw).
+  Lemma built_pupil_aberration nf nw s1 s2 sx sy : built (q_pupil_aberration Ph nf nw s1 s2 sx sy).
   Proof. unfold q_pupil_aberration; bt; auto with c13. Qed.
   Local Hint Resolve built_pupil_aberration : c13.
-  Lemma built_distortion nw : built (q_distortion Ph nw).
+  Lemma built_distortion nw s : built (q_distortion Ph nw s).
   Proof. unfold q_distortion; bt; auto with c13. Qed.
   Local Hint Resolve built_distortion : c13.
-  Lemma built_field_curvature nw : built (q_field_curvature Ph nw).
+  Lemma built_field_curvature nw s : built (q_field_curvature Ph nw s).
   Proof. unfold q_field_curvature; bt; auto with c13. Qed.
   Local Hint Resolve built_field_curvature : c13.
-  Lemma built_grid_distortion : built (q_grid_distortion Ph).
+  Lemma built_grid_distortion s1 s2 : built (q_grid_distortion Ph s1 s2).
   Proof. unfold q_grid_distortion; bt; auto with c13. Qed.
   Local Hint Resolve built_grid_distortion : c13.
   Lemma built_yybar : built (q_yybar Ph).
   Proof. unfold q_yybar; bt; auto with c13. Qed.
   Local Hint Resolve built_yybar : c13.
-  Lemma built_fftmtf nf : built (q_fftmtf Ph nf).
+  Lemma built_working_fno : built (working_fno Ph).
+  Proof. unfold working_fno; bt; auto with c13. Qed.
+  Local Hint Resolve built_working_fno : c13.
+  Lemma built_fftmtf nf sc sp : built (q_fftmtf Ph nf sc sp).
   Proof. unfold q_fftmtf; bt; auto with c13. Qed.
   Local Hint Resolve built_fftmtf : c13.
-  Lemma built_geometric_mtf nf : built (q_geometric_mtf Ph nf).
+  Lemma built_geometric_mtf nf s : built (q_geometric_mtf Ph nf s).
   Proof. unfold q_geometric_mtf; bt; auto with c13. Qed.
   Local Hint Resolve built_geometric_mtf : c13.
 
@@ -267,8 +273,9 @@ Section StateMachine.
   Inductive opcode :=
   | Of1 | Of2 | OF1 | OF2 | OP1 | OP2 | ON1 | ON2 | OEPL | OEPD | OXPL | OXPD | OFNO | Omagnification
   | Oinvariant | Omarginal | Ochief | Optrace (site : nat) | Otrace (site : nat) | Oaberration
-  | Owavefront (nf nw : nat) | Ospot (nf nw : nat) | Orayfan (nf nw : nat) | Opupil (nf nw : nat)
-  | Odistortion (nw : nat) | Ofieldcurv (nw : nat) | Ogriddist | Oyybar | Offtmtf (nf : nat) | Ogeomtf (nf : nat)
+  | Owavefront (nf nw sc sp : nat) | Ospot (nf nw s : nat) | Orayfan (nf nw sx sy : nat)
+  | Opupil (nf nw s1 s2 sx sy : nat) | Odistortion (nw s : nat) | Ofieldcurv (nw s : nat) | Ogriddist (s1 s2 : nat)
+  | Oyybar | Offtmtf (nf sc sp : nat) | Ogeomtf (nf s : nat)
   | Opure.     (* Optic.n, positions, radii, to_dict ...: reads the prescription only *)
   Definition op_query (c : opcode) : M Ph :=
     match c with
@@ -277,11 +284,12 @@ Section StateMachine.
     | OXPD => q_XPD Ph | OFNO => q_FNO Ph | Omagnification => q_magnification Ph
     | Oinvariant => q_invariant Ph | Omarginal => q_marginal Ph | Ochief => q_chief Ph
     | Optrace s => q_ptrace Ph s | Otrace s => q_trace Ph s | Oaberration => q_aberration Ph
-    | Owavefront nf nw => q_wavefront Ph nf nw | Ospot nf nw => q_spot Ph nf nw
-    | Orayfan nf nw => q_rayfan Ph nf nw | Opupil nf nw => q_pupil_aberration Ph nf nw
-    | Odistortion nw => q_distortion Ph nw | Ofieldcurv nw => q_field_curvature Ph nw
-    | Ogriddist => q_grid_distortion Ph | Oyybar => q_yybar Ph | Offtmtf nf => q_fftmtf Ph nf
-    | Ogeomtf nf => q_geometric_mtf Ph nf | Opure => withP (fun _ => idM Ph)
+    | Owavefront nf nw sc sp => q_wavefront Ph nf nw sc sp | Ospot nf nw s => q_spot Ph nf nw s
+    | Orayfan nf nw sx sy => q_rayfan Ph nf nw sx sy
+    | Opupil nf nw s1 s2 sx sy => q_pupil_aberration Ph nf nw s1 s2 sx sy
+    | Odistortion nw s => q_distortion Ph nw s | Ofieldcurv nw s => q_field_curvature Ph nw s
+    | Ogriddist s1 s2 => q_grid_distortion Ph s1 s2 | Oyybar => q_yybar Ph | Offtmtf nf sc sp => q_fftmtf Ph nf sc sp
+    | Ogeomtf nf s => q_geometric_mtf Ph nf s | Opure => withP (fun _ => idM Ph)
     end.
 
   Theorem every_modelled_query_built (c : opcode) : built (op_query c).
@@ -314,12 +322,13 @@ Section StateMachine.
 
   (** in the vocabulary of Spec/S_C13.v *)
   Theorem model_meets_spec :
-    preserves_prescription (@presc V Sf G) (fun c l => run_call (op_call c) l) /\
-    history_independent (fun c l => run_call (op_call c) l) (fun c l => exec (op_query c []) l) (fun _ => True) /\
-    repeatable (fun c l => exec (op_query c []) l) (fun _ => True) /\
-    determined_by_prescription (@presc V Sf G) (fun c l => exec (op_query c []) l) (fun _ => True).
+    preserves_prescription _ _ _ (@presc V Sf G) (fun (c : opcode) l => run_call (op_call c) l) /\
+    history_independent _ _ _ _ (fun (c : opcode) l => run_call (op_call c) l)
+                        (fun (c : opcode) l => exec (op_query c []) l) (fun _ => True) /\
+    repeatable _ _ _ (fun (c : opcode) (l : lens) => exec (op_query c []) l) (fun _ => True) /\
+    determined_by_prescription _ _ _ _ (@presc V Sf G) (fun (c : opcode) l => exec (op_query c []) l) (fun _ => True).
   Proof.
-    assert (Hact : forall h l, act (fun c l => run_call (op_call c) l) h l = run (map op_call h) l).
+    assert (Hact : forall h l, act _ _ (fun (c : opcode) (l : lens) => run_call (op_call c) l) h l = run (map op_call h) l).
     { intros h; induction h as [|c h IH]; intros l; simpl; [reflexivity|]. unfold act, run in *; simpl. apply IH. }
     repeat split.
     - intros h l. rewrite Hact. apply interleavings_preserve_prescription.
@@ -337,8 +346,10 @@ End StateMachine.
 Section SizeInstance.
   (** system data: aperture kind, object at infinity, field type is object_height / angle, telecentric,
       and the ray count of each call site *)
-  Record cfg := mkCfg { c_ap : nat; c_inf : bool; c_height : bool; c_angle : bool; c_tele : bool;
-                        c_rays : nat -> nat }.
+  Record cfg := mkCfg { c_ap : nat; c_inf : bool; c_height : bool; c_angle : bool; c_tele : bool }.
+  (** call sites below 20 are the one-ray traces inside paraxial.py; every other site carries its ray
+      count: site = 1000 * rays + tag *)
+  Definition c_rays (site : nat) : nat := Nat.div site 1000.
   Definition ones (n : nat) : arr unit := repeat tt n.
   Definition SizePh : phys unit bool cfg :=
     {| pst := nat; rst := nat;
@@ -346,16 +357,16 @@ Section SizeInstance.
        rstep := fun _ n => n;
        q_x := ones; q_y := ones; q_z := ones; q_L := ones; q_M := ones; q_N := ones; q_i := ones; q_opd := ones;
        inv_s := fun _ s => s;
-       par_launch := fun site q _ => if Nat.ltb site 20 then 1%nat else c_rays (snd q) site;
-       real_launch := fun site q _ => c_rays (snd q) site;
+       par_launch := fun site _ _ => if Nat.ltb site 20 then 1%nat else c_rays site;
+       real_launch := fun site _ _ => c_rays site;
        is_stop := fun b => b;
        ap_kind := c_ap; obj_infinite := fun q => c_inf (snd q);
        field_is_height := c_height; field_is_angle := c_angle; telecentric := c_tele |}.
-  Definition size_lens (stop n : nat) (g : cfg) : lens unit bool cfg :=
+  Definition size_lens (stop n : nat) (g : cfg) : @lens unit bool cfg :=
     mkLens (map (fun i => (Nat.eqb i stop, empty_rec)) (seq 0 n)) g.
-  Definition table (l : lens unit bool cfg) : list (list Z) := map (fun sr => sizes (snd sr)) (surfs l).
+  Definition table (l : @lens unit bool cfg) : list (list Z) := map (fun sr => sizes (snd sr)) (surfs l).
   (** record sizes after each call of a history *)
-  Fixpoint tables (h : list opcode) (l : lens unit bool cfg) : list (list (list Z)) :=
+  Fixpoint tables (h : list opcode) (l : @lens unit bool cfg) : list (list (list Z)) :=
     match h with
     | [] => []
     | c :: t => let l' := run_call (op_call SizePh c) l in table l' :: tables t l'
@@ -365,11 +376,11 @@ Section SizeInstance.
     forallb (fun p => Nat.eqb (length (fst p)) (length (snd p)) &&
                       forallb (fun q => Z.eqb (fst q) (snd q)) (combine (fst p) (snd p))) (combine a b).
 
-  Definition demo_cfg : cfg := mkCfg 0 true false true false (fun _ => 3%nat).
+  Definition demo_cfg : cfg := mkCfg 0 true false true false.
   Definition demo_lens := size_lens 2 5 demo_cfg.
 
   (** the hypotheses are satisfiable ... *)
-  Example demo_trace_wf : wf false (op_query SizePh (Otrace 30) []).
+  Example demo_trace_wf : wf false (op_query SizePh (Otrace 3030) []).
   Proof. apply built_wf, every_modelled_query_built. Qed.
   Example demo_xpl_table :
     table (run_call (op_call SizePh OXPL) demo_lens) =
@@ -377,7 +388,7 @@ Section SizeInstance.
      [1;1;0;0;0;0;0;0;0;0]; [1;1;0;0;0;0;0;0;0;0]]%Z.
   Proof. reflexivity. Qed.
   Example demo_trace_then_xpl_table :
-    table (run [op_call SizePh (Otrace 30); op_call SizePh OXPL] demo_lens) =
+    table (run [op_call SizePh (Otrace 3030); op_call SizePh OXPL] demo_lens) =
     table (run_call (op_call SizePh OXPL) demo_lens).
   Proof. reflexivity. Qed.
 
@@ -385,7 +396,7 @@ Section SizeInstance.
   Definition peek : prog SizePh nat := Read (fun rs => Ret (length (getter (@r_x unit) rs))).
   Theorem reading_before_tracing_is_history_dependent :
     exists (h : list (call SizePh)) l, fst (exec peek (run h l)) <> fst (exec peek l).
-  Proof. exists [op_call SizePh (Otrace 30)], demo_lens. vm_compute. discriminate. Qed.
+  Proof. exists [op_call SizePh (Otrace 3030)], demo_lens. vm_compute. discriminate. Qed.
   Theorem peek_not_wf : ~ wf false peek.
   Proof. intros W. inversion W. Qed.
 End SizeInstance.
@@ -464,7 +475,9 @@ Section NewtonBatch.
   (** a ray in company is corrected at least as often as alone *)
   Theorem batch_count_ge_single fuel : forall rs r, In r rs -> (cnt fuel [r] <= cnt fuel rs)%nat.
   Proof.
-    induction fuel as [|f IH]; intros rs r Hin; simpl; [lia|].
+    induction fuel as [|f IH]; intros rs r Hin; [simpl; lia|].
+    change (cnt (S f) [r]) with (if all_small sag tol [r] then 1%nat else S (cnt f (map stp [r]))).
+    change (cnt (S f) rs) with (if all_small sag tol rs then 1%nat else S (cnt f (map stp rs))).
     destruct (all_small sag tol rs) eqn:E.
     - rewrite (all_small_member _ _ E Hin). lia.
     - destruct (all_small sag tol [r]); [lia|].
@@ -523,9 +536,10 @@ Theorem newton_iterates_on_ray (sag : R -> R -> R) (n : nat) :
     iter_step (O := ROps) sag n ((L, M, N), (x, y, z)) = ((L, M, N), (x + t * L, y + t * M, z + t * N)).
 Proof.
   induction n as [|n IH]; intros L M N x y z.
-  - exists 0. simpl. repeat f_equal; ring.
+  - exists 0. simpl. apply f_equal2; [reflexivity|]. apply f_equal2; [apply f_equal2|]; ring.
   - simpl. destruct (IH L M N (x - (z - sag x y) / N * L) (y - (z - sag x y) / N * M) (z - (z - sag x y) / N * N))
-      as [t Ht]. rops. rewrite Ht. exists (t - (z - sag x y) / N). repeat f_equal; ring.
+      as [t Ht]. rops. rewrite Ht. exists (t - (z - sag x y) / N).
+    apply f_equal2; [reflexivity|]. apply f_equal2; [apply f_equal2|]; ring.
 Qed.
 
 (** two accepted parameters along a ray on which the residual is m-expansive are 2 tol / m apart; the
